@@ -661,6 +661,15 @@ def check_parity(F, rep, rule, tyname, anchor):
             elif desc[0] == "call":
                 cc = desc[1] or ""
                 if (cc.endswith("::is_err") or cc.endswith("::is_ok")) and from_parser(desc[2][2][0]): dep = True
+                elif cc.endswith("::is_empty") and desc[2][2]:
+                    # `verdicts.is_empty()` where every push into `verdicts` happens on the Ok arm of a parser result: "no parser accepted"
+                    import panics as _pn
+                    rk = _pn.okey(f, desc[2][2][0])
+                    pushes = [(b2, t2) for b2, t2 in f.calls() if (mir.callee(t2) or "").endswith("Vec::<T, A>::push") and _pn.okey(f, t2[2][0]) == rk]
+                    def ok_arm(b2):
+                        return any(d2[0] == "discr" and from_parser(["cp", d2[1]]) and isinstance(p2, tuple) and (("Ok" in p2[1]) if p2[0] == "in" else ("Err" in p2[1])) for d2, p2, dd2 in mir.guards_of(f, b2))
+                    if pushes and all(ok_arm(b2) for b2, t2 in pushes): dep = True
+                    else: only_format = False
                 elif "PartialEq" in cc or cc.endswith("::eq"):
                     if not any("format" in o.path_str() for a in desc[2][2] for o in mir.trace_op(f, a)): only_format = False
                 else: only_format = False
